@@ -53,10 +53,17 @@ def rand_mesh(rng, nx, ny, symmetry, right=False, planar=False, jitter=0.01, spa
     return np.ascontiguousarray(mesh)
 
 
+def flag(rng, b):
+    """a boolean option the way user scripts produce it: mostly a Python bool, sometimes the numpy.bool_ of a comparison such as
+    `mesh[0, -1, 1] == 0.0`, sometimes the 0/1 of a configuration file – all of them truthy/falsy in the same way"""
+    u = rng.uniform()
+    return bool(b) if u < 0.7 else (np.bool_(b) if u < 0.9 else int(bool(b)))
+
+
 def base_surface(rng, nx, ny, symmetry, name="wing", right=False, fem="tube", **kw):
     mesh = rand_mesh(rng, nx, ny, symmetry, right=right, **kw)
     s = {
-        "name": name, "symmetry": symmetry, "S_ref_type": rng.choice(["wetted", "projected"]).item(),
+        "name": name, "symmetry": flag(rng, symmetry), "S_ref_type": rng.choice(["wetted", "projected"]).item(),
         "fem_model_type": fem, "mesh": mesh,
         "twist_cp": np.zeros(2), "thickness_cp": np.array([0.1, 0.2]) * 0.3,
         "CL0": 0.0, "CD0": 0.015, "k_lam": 0.05, "t_over_c_cp": np.array([0.15]), "c_max_t": 0.303,
